@@ -13,7 +13,17 @@
 //   fmap <production_id> <field_id>:<child_index>:<inherited> ...   (through ts_language_field_map)
 //   field <id> <hexname>
 //   endlanguage
+//
+//   tsv-cunit_c02 balance <lang.so> <tree_sitter_NAME> <lang-id> <seed> <cases>
+//       builds deliberately UNBALANCED trees (left-deep chains of one symbol with leaves / short chains
+//       on the right, now and then a shared node, a foreign symbol or a one-child node to hit the
+//       `break`s) with ts_subtree_new_leaf / ts_subtree_new_node, dumps them, runs the REAL
+//       ts_subtree_compress(tree, count) or the REAL ts_parser__balance_subtree (static; reachable in
+//       the unity build) on them and dumps the result, in the line protocol of the Lean driver:
+//         case <id> / lang <lang-id> / kind balance / balmode compress <count> | balmode balance /
+//         btree 0 … end (before) / tree 0 … end (after) / runbal
 #include TSV_REPO_LIB_C
+#include "shim.c"
 #include <stdio.h>
 #include <string.h>
 #include <dlfcn.h>
@@ -68,8 +78,117 @@ static int dump_language(const char *so, const char *fn) {
   return 0;
 }
 
+static uint64_t rng_state;
+static uint32_t rnd(uint32_t n) {   // deterministic LCG, 0 <= result < n
+  rng_state = rng_state * 6364136223846793005ULL + 1442695040888963407ULL;
+  return n ? (uint32_t)((rng_state >> 33) % n) : 0;
+}
+
+static Subtree mk_leaf(SubtreePool *pool, const TSLanguage *lang, TSSymbol sym) {
+  Length pad = {rnd(3), {0, 0}}, size = {1 + rnd(4), {0, 0}};
+  pad.extent.column = pad.bytes;
+  size.extent.column = size.bytes;
+  if (rnd(5) == 0) { pad.bytes += 1; pad.extent.row = 1; pad.extent.column = rnd(2); pad.bytes += pad.extent.column; }
+  if (rnd(7) == 0) { size.extent.row = 1; size.extent.column = 1; size.bytes = 3; }
+  if (rnd(9) == 0) { size.bytes = 0; size.extent.column = 0; size.extent.row = 0; }   // a zero-width leaf
+  return ts_subtree_new_leaf(pool, sym, pad, size, rnd(3), (TSStateId)(1 + rnd(5)), false, false, false, lang);
+}
+
+// a chain of `depth` nodes of symbol `sym`, each = [previous chain, 1..2 right children]
+static Subtree mk_chain(SubtreePool *pool, const TSLanguage *lang, TSSymbol sym, TSSymbol other, TSSymbol leafsym,
+                        unsigned depth, bool hazards, Subtree *keep, unsigned *nkeep) {
+  Subtree cur = mk_leaf(pool, lang, leafsym);
+  for (unsigned k = 0; k < depth; k++) {
+    SubtreeArray kids = array_new();
+    array_push(&kids, cur);
+    unsigned extra = 1 + (rnd(4) == 0);
+    if (hazards && rnd(12) == 0) extra = 0;                       // a one-child node: `child_count < 2`
+    for (unsigned e = 0; e < extra; e++) {
+      if (rnd(4) == 0) array_push(&kids, mk_chain(pool, lang, sym, other, leafsym, 1 + rnd(4), false, keep, nkeep));
+      else array_push(&kids, mk_leaf(pool, lang, leafsym));
+    }
+    TSSymbol s = (hazards && rnd(14) == 0) ? other : sym;         // a foreign symbol: `symbol != symbol`
+    cur = ts_subtree_from_mut(ts_subtree_new_node(s, &kids, 0, lang));
+    if (hazards && rnd(14) == 0 && *nkeep < 64) {                 // a shared node: `ref_count > 1`
+      ts_subtree_retain(cur);
+      keep[(*nkeep)++] = cur;
+    }
+  }
+  return cur;
+}
+
+static void print_tree(const char *tag, Subtree t) {
+  Buf b = {0};
+  dump_subtree(&b, t);
+  printf("%s 0\n%send\n", tag, b.data ? b.data : "");
+  free(b.data);
+}
+
+static int balance_cases(const char *so, const char *fn, const char *lang_id, unsigned seed, unsigned cases) {
+  void *h = dlopen(so, RTLD_NOW | RTLD_LOCAL);
+  if (!h) { fprintf(stderr, "dlopen %s: %s\n", so, dlerror()); return 2; }
+  const TSLanguage *(*f)(void) = (const TSLanguage *(*)(void))dlsym(h, fn);
+  if (!f) { fprintf(stderr, "dlsym %s failed\n", fn); return 2; }
+  const TSLanguage *lang = f();
+  // chain symbol: a hidden unnamed non-terminal if the language has one (auxiliary repeat symbols
+  // are), else the last symbol; `other`: another non-terminal; leaves: the first visible token
+  TSSymbol sym = (TSSymbol)(lang->symbol_count - 1), other = (TSSymbol)lang->token_count, leafsym = 1;
+  for (uint32_t i = lang->token_count; i < lang->symbol_count; i++) {
+    TSSymbolMetadata m = ts_language_symbol_metadata(lang, (TSSymbol)i);
+    if (!m.visible && !m.named) { sym = (TSSymbol)i; break; }
+  }
+  if (other == sym) other = (TSSymbol)(sym > lang->token_count ? sym - 1 : sym + 1 < lang->symbol_count ? sym + 1 : sym);
+  for (uint32_t i = 1; i < lang->token_count; i++) {
+    TSSymbolMetadata m = ts_language_symbol_metadata(lang, (TSSymbol)i);
+    if (m.visible) { leafsym = (TSSymbol)i; break; }
+  }
+  rng_state = 0x9E3779B97F4A7C15ULL ^ ((uint64_t)seed << 20);
+  for (const char *p = lang_id; *p; p++) rng_state = rng_state * 131 + (unsigned char)*p;
+  SubtreePool pool = ts_subtree_pool_new(32);
+  for (unsigned c = 0; c < cases; c++) {
+    Subtree keep[64];
+    unsigned nkeep = 0;
+    bool hazards = c % 3 == 2;
+    unsigned depth = c < 6 ? 2 + c : 2 + rnd(c % 5 == 0 ? 70 : 24);
+    Subtree tree = mk_chain(&pool, lang, sym, other, leafsym, depth, hazards, keep, &nkeep);
+    printf("case bal-%s-%u\nlang %s\nkind balance\n", lang_id, c, lang_id);
+    bool full = c % 2 == 1;
+    unsigned count = 0;
+    if (full) printf("balmode balance\n");
+    else {
+      unsigned pick = rnd(5);
+      count = pick == 0 ? 1 : pick == 1 ? 2 : pick == 2 ? depth / 2 : pick == 3 ? depth : 3 + rnd(6);
+      printf("balmode compress %u\n", count);
+    }
+    print_tree("btree", tree);
+    if (full) {
+      TSParser *parser = ts_parser_new();
+      ts_parser_set_language(parser, lang);
+      parser->finished_tree = tree;
+      parser->canceled_balancing = false;
+      if (!ts_parser__balance_subtree(parser)) { fprintf(stderr, "balancing was cancelled\n"); return 3; }
+      tree = parser->finished_tree;
+      parser->finished_tree = NULL_SUBTREE;
+      print_tree("tree", tree);
+      ts_parser_delete(parser);
+    } else {
+      MutableSubtreeArray stack = array_new();
+      if (ts_subtree_child_count(tree) > 0) ts_subtree_compress(ts_subtree_to_mut_unsafe(tree), count, lang, &stack);
+      array_delete(&stack);
+      print_tree("tree", tree);
+    }
+    printf("runbal\n");
+    for (unsigned k = 0; k < nkeep; k++) ts_subtree_release(&pool, keep[k]);
+    ts_subtree_release(&pool, tree);
+  }
+  ts_subtree_pool_delete(&pool);
+  return 0;
+}
+
 int main(int argc, char **argv) {
   if (argc == 4 && !strcmp(argv[1], "lang")) return dump_language(argv[2], argv[3]);
-  fprintf(stderr, "usage: %s lang <lang.so> <tree_sitter_NAME>\n", argv[0]);
+  if (argc == 7 && !strcmp(argv[1], "balance"))
+    return balance_cases(argv[2], argv[3], argv[4], (unsigned)strtoul(argv[5], NULL, 10), (unsigned)strtoul(argv[6], NULL, 10));
+  fprintf(stderr, "usage: %s lang <lang.so> <tree_sitter_NAME> | balance <lang.so> <fn> <lang-id> <seed> <cases>\n", argv[0]);
   return 2;
 }
